@@ -81,6 +81,25 @@ func vTwoEdits(r *rand.Rand, raw string) string {
 	return strings.Join(w, " ")
 }
 
+// vNovelize replaces some words by tokens the corpus has never seen, in many
+// shapes (version numbers after the word "version", years, dotted numbers,
+// hyphenated identifiers): any path on which Match records something about new
+// words in shared state is exercised.
+func vNovelize(r *rand.Rand, raw string) string {
+	w := strings.Fields(raw)
+	for i := range w {
+		lw := strings.ToLower(strings.Trim(w[i], ".,;:()"))
+		if lw == "version" && i+1 < len(w) {
+			w[i+1] = fmt.Sprintf("%d.%d", 90+r.Intn(9), r.Intn(10))
+			continue
+		}
+		if r.Intn(25) == 0 {
+			w[i] = []string{fmt.Sprintf("%d.%d.%d", 40+r.Intn(50), r.Intn(10), r.Intn(10)), fmt.Sprint(2031 + r.Intn(60)), "v" + fmt.Sprint(12+r.Intn(80)) + ".7", vOOVWord(r), "x86-" + fmt.Sprint(65+r.Intn(30)), "Version", fmt.Sprintf("%d.%d", 90+r.Intn(9), r.Intn(10))}[r.Intn(7)]
+		}
+	}
+	return strings.Join(w, " ")
+}
+
 func TestVerifC09(t *testing.T) {
 	e := vStart(t, "C09")
 	defer e.finish()
@@ -123,6 +142,7 @@ func TestVerifC09(t *testing.T) {
 				inputs = append(inputs, []byte(vOOVBlock(r, 1)+vWithNL(vTwoEdits(r, raw))+vOOVBlock(r, 1)))
 			}
 			inputs = append(inputs, []byte(vOOVBlock(r, 2)+vWithNL(raw)))
+			inputs = append(inputs, []byte(vWithNL(vNovelize(r, raw))), []byte("This is version 97."+fmt.Sprint(r.Intn(10))+" of the file\n"+vWithNL(vNovelize(r, byKey["License/Apache-2.0/pristine.txt"]))))
 			inputs = append(inputs, []byte(vWithNL(byKey[large[r.Intn(len(large))]])))
 			sc := vScenarios()
 			inputs = append(inputs, sc[r.Intn(len(sc))].data)
